@@ -373,9 +373,22 @@ class Executor:
         m = getattr(self, "s_" + type(s).__name__, None)
         if m is None:
             raise Unsupported(f"statement {type(s).__name__} at line {s.lineno}")
+        if self.spec.ghost_before:
+            src = ast.unparse(s).strip()
+            for pat, gvar, gexpr in self.spec.ghost_before:
+                if src.startswith(pat):
+                    self.set_ghost(st, gvar, gexpr)
         r = m(s, st)
         self.ghost_hooks(s, r)
         return r
+
+    def set_ghost(self, s2, gvar, gexpr):
+        gv = self.spec_value(gexpr, s2, old=self.old)
+        if gv.t == BOOL and not z3.is_const(gv.z):
+            nm = fresh(BOOL, "ghost_" + gvar)  # snapshot: later clauses see an atom, not the formula
+            s2.pc.append(nm.z == gv.z)
+            gv = nm
+        s2.vars[gvar] = gv
 
     def ghost_hooks(self, s, results):
         if not self.spec.ghost_after:
@@ -385,12 +398,7 @@ class Executor:
             if src.strip().startswith(pat):
                 for (s2, kind, _) in results:
                     if kind == "normal":
-                        gv = self.spec_value(gexpr, s2, old=self.old)
-                        if gv.t == BOOL and not z3.is_const(gv.z):
-                            nm = fresh(BOOL, "ghost_" + gvar)  # snapshot: later clauses see an atom, not the formula
-                            s2.pc.append(nm.z == gv.z)
-                            gv = nm
-                        s2.vars[gvar] = gv
+                        self.set_ghost(s2, gvar, gexpr)
 
     # -- simple statements
     def s_Pass(self, s, st):
